@@ -199,6 +199,18 @@ CHECKS = {
              "rationals that are compared to 1e-9 with the public functions; ties on a tolerance are flagged by the spec and "
              "skipped, as the property stipulates.",
         ref="4/C04"),
+    "C19": dict(
+        technique="TLA+ loop machine of the framewise variants and permutation optimality/equivariance (Sep.tla) model-checked; "
+                  "recorded bss_eval_* outcomes (discrete facts + harness-measured numeric facts as booleans) judged by a TLA+ "
+                  "trace spec",
+        text="Only the discrete content of C19 is decided by the specification: window count floor((L-window+hop)/hop), fallback "
+             "below two windows, NaN in every metric iff a source is silent in the window, arity 4/5 incl. empty input, the "
+             "permutation being a permutation that maximises summed SIR (matrix rebuilt through the public API) and following "
+             "a reordering of the estimates. Exact decomposition, scale invariance, window == non-framewise on its slice and "
+             "'very high SDR' are floating-point facts measured by the harness on seeded random/mixed/filtered signals (1-3 "
+             "sources, 1-2 channels) and only their truth values pass through Trace_C19. Hence level 'other'.",
+        ref="4/C19, 8",
+        category="other"),
 }
 
 PENDING = "check not built yet (build in progress; see DESIGN.md section 10)"
